@@ -13,9 +13,10 @@
    * InstanceHandle ([u8;16]) = record (inst, k0, k1, k2, kind): bytes 0..7 are the constant host/app id of the
      factory, bytes 8..11 the little-endian u32 participant instance number `inst`, bytes 12..15 the entity id.
    * Vec = list in storage order; `find`/`position` = first match.
-   * counters are Z with their Rust widths; `+= 1` at the maximum panics in the Debug profile and wraps in Release;
-     the ghost flag pa_ovf / f_ovf records that this happened (the state after a panic only keeps that flag
-     meaningful: the worker task is dead).
+   * counters are Z with their Rust widths; since b2cf990 they are incremented with checked_add(1) and an exhausted
+     counter makes the creation return OutOfResources, so the build profile (kept as a parameter of the step
+     functions) no longer matters; the only wrapping counter left is the AtomicU32 participant instance number
+     (fetch_add), whose wrap-around after 2^32 create_participant calls is recorded by the ghost flag f_ovf.
    * topic names are Z: n >= 0 is the topic name "t<n>", n < 0 the content-filtered-topic name "c<-n-1>"; built-in
      topic names are never used by the harness and are not modelled.
    * QoS: one record for topic / writer / reader QoS (slots a kind does not have keep a constant), one for
@@ -48,10 +49,8 @@ Definition KIND_READER_WITH_KEY : Z := 7.
 (* ------------------------------------------------------------------ counters *)
 Inductive profile : Type := Debug | Release.
 
-(* `c += 1` on an unsigned counter whose largest value is maxv: (new value, overflowed).  The Release build
-   continues with the wrapped value; the Debug build (overflow checks) panics. *)
-Definition bump (maxv c : Z) : Z * bool := if c <? maxv then (c + 1, false) else (0, true).
-Definition panics (pr : profile) (cv : Z * bool) : bool := match pr with Debug => snd cv | Release => false end.
+(* `c.checked_add(1)` on an unsigned counter whose largest value is maxv *)
+Definition next_id (maxv c : Z) : option Z := if c <? maxv then Some (c + 1) else None.
 
 (* ------------------------------------------------------------------ QoS *)
 Record eqos : Type := mkEQ {
@@ -214,8 +213,7 @@ Record part : Type := mkPa {
   pa_tc : Z;        (* topic_counter      : u16 *)
   pa_pubs : list group; pa_subs : list group;
   pa_topics : list topic; pa_cfts : list cft;
-  pa_defpub : gqos; pa_defsub : gqos; pa_deftopic : eqos;
-  pa_ovf : bool     (* ghost: some counter of this participant wrapped *)
+  pa_defpub : gqos; pa_defsub : gqos; pa_deftopic : eqos
 }.
 
 Record factory : Type := mkF {
@@ -223,7 +221,7 @@ Record factory : Type := mkF {
   f_auto : bool;            (* DomainParticipantFactoryQos.entity_factory.autoenable_created_entities *)
   f_defp : pqos;            (* default_participant_qos *)
   f_next : Z;               (* DomainParticipantFactoryAsync::entity_counter : AtomicU32 (fetch_add wraps) *)
-  f_ovf : bool              (* ghost: a deleted participant had pa_ovf, or f_next wrapped *)
+  f_ovf : bool              (* ghost: f_next wrapped around (2^32 participants were created) *)
 }.
 
 Definition init_factory : factory := mkF [] true default_pqos 0 false.
@@ -256,6 +254,7 @@ Inductive ret : Type :=
 | RPanic.                       (* the worker task panicked: the participant factory is dead *)
 
 Definition E_PRECONDITION : Z := 4.
+Definition E_OUT_OF_RESOURCES : Z := 5.
 Definition E_IMMUTABLE : Z := 7.
 Definition E_INCONSISTENT : Z := 8.
 Definition E_DELETED : Z := 9.
@@ -266,46 +265,42 @@ Definition groups (sd : side) (p : part) : list group :=
 Definition set_groups (sd : side) (p : part) (l : list group) : part :=
   match sd with
   | SPub => mkPa (pa_h p) (pa_en p) (pa_q p) (pa_pubc p) (pa_subc p) (pa_wc p) (pa_rc p) (pa_tc p) l (pa_subs p)
-                 (pa_topics p) (pa_cfts p) (pa_defpub p) (pa_defsub p) (pa_deftopic p) (pa_ovf p)
+                 (pa_topics p) (pa_cfts p) (pa_defpub p) (pa_defsub p) (pa_deftopic p)
   | SSub => mkPa (pa_h p) (pa_en p) (pa_q p) (pa_pubc p) (pa_subc p) (pa_wc p) (pa_rc p) (pa_tc p) (pa_pubs p) l
-                 (pa_topics p) (pa_cfts p) (pa_defpub p) (pa_defsub p) (pa_deftopic p) (pa_ovf p)
+                 (pa_topics p) (pa_cfts p) (pa_defpub p) (pa_defsub p) (pa_deftopic p)
   end.
 Definition set_topics (p : part) (l : list topic) : part :=
   mkPa (pa_h p) (pa_en p) (pa_q p) (pa_pubc p) (pa_subc p) (pa_wc p) (pa_rc p) (pa_tc p) (pa_pubs p) (pa_subs p)
-       l (pa_cfts p) (pa_defpub p) (pa_defsub p) (pa_deftopic p) (pa_ovf p).
+       l (pa_cfts p) (pa_defpub p) (pa_defsub p) (pa_deftopic p).
 Definition set_cfts (p : part) (l : list cft) : part :=
   mkPa (pa_h p) (pa_en p) (pa_q p) (pa_pubc p) (pa_subc p) (pa_wc p) (pa_rc p) (pa_tc p) (pa_pubs p) (pa_subs p)
-       (pa_topics p) l (pa_defpub p) (pa_defsub p) (pa_deftopic p) (pa_ovf p).
-(* group counter (u8), endpoint counter (u16), topic counter (u16), each with the ghost flag *)
+       (pa_topics p) l (pa_defpub p) (pa_defsub p) (pa_deftopic p).
+(* group counter (u8), endpoint counter (u16), topic counter (u16) *)
 Definition gcounter (sd : side) (p : part) : Z := match sd with SPub => pa_pubc p | SSub => pa_subc p end.
 Definition ecounter (sd : side) (p : part) : Z := match sd with SPub => pa_wc p | SSub => pa_rc p end.
-Definition set_gcounter (sd : side) (p : part) (cv : Z * bool) : part :=
+Definition set_gcounter (sd : side) (p : part) (c : Z) : part :=
   match sd with
-  | SPub => mkPa (pa_h p) (pa_en p) (pa_q p) (fst cv) (pa_subc p) (pa_wc p) (pa_rc p) (pa_tc p) (pa_pubs p)
+  | SPub => mkPa (pa_h p) (pa_en p) (pa_q p) c (pa_subc p) (pa_wc p) (pa_rc p) (pa_tc p) (pa_pubs p)
                  (pa_subs p) (pa_topics p) (pa_cfts p) (pa_defpub p) (pa_defsub p) (pa_deftopic p)
-                 (pa_ovf p || snd cv)
-  | SSub => mkPa (pa_h p) (pa_en p) (pa_q p) (pa_pubc p) (fst cv) (pa_wc p) (pa_rc p) (pa_tc p) (pa_pubs p)
+  | SSub => mkPa (pa_h p) (pa_en p) (pa_q p) (pa_pubc p) c (pa_wc p) (pa_rc p) (pa_tc p) (pa_pubs p)
                  (pa_subs p) (pa_topics p) (pa_cfts p) (pa_defpub p) (pa_defsub p) (pa_deftopic p)
-                 (pa_ovf p || snd cv)
   end.
-Definition set_ecounter (sd : side) (p : part) (cv : Z * bool) : part :=
+Definition set_ecounter (sd : side) (p : part) (c : Z) : part :=
   match sd with
-  | SPub => mkPa (pa_h p) (pa_en p) (pa_q p) (pa_pubc p) (pa_subc p) (fst cv) (pa_rc p) (pa_tc p) (pa_pubs p)
+  | SPub => mkPa (pa_h p) (pa_en p) (pa_q p) (pa_pubc p) (pa_subc p) c (pa_rc p) (pa_tc p) (pa_pubs p)
                  (pa_subs p) (pa_topics p) (pa_cfts p) (pa_defpub p) (pa_defsub p) (pa_deftopic p)
-                 (pa_ovf p || snd cv)
-  | SSub => mkPa (pa_h p) (pa_en p) (pa_q p) (pa_pubc p) (pa_subc p) (pa_wc p) (fst cv) (pa_tc p) (pa_pubs p)
+  | SSub => mkPa (pa_h p) (pa_en p) (pa_q p) (pa_pubc p) (pa_subc p) (pa_wc p) c (pa_tc p) (pa_pubs p)
                  (pa_subs p) (pa_topics p) (pa_cfts p) (pa_defpub p) (pa_defsub p) (pa_deftopic p)
-                 (pa_ovf p || snd cv)
   end.
-Definition set_tcounter (p : part) (cv : Z * bool) : part :=
-  mkPa (pa_h p) (pa_en p) (pa_q p) (pa_pubc p) (pa_subc p) (pa_wc p) (pa_rc p) (fst cv) (pa_pubs p) (pa_subs p)
-       (pa_topics p) (pa_cfts p) (pa_defpub p) (pa_defsub p) (pa_deftopic p) (pa_ovf p || snd cv).
+Definition set_tcounter (p : part) (c : Z) : part :=
+  mkPa (pa_h p) (pa_en p) (pa_q p) (pa_pubc p) (pa_subc p) (pa_wc p) (pa_rc p) c (pa_pubs p) (pa_subs p)
+       (pa_topics p) (pa_cfts p) (pa_defpub p) (pa_defsub p) (pa_deftopic p).
 Definition set_part_en (p : part) (b : bool) : part :=
   mkPa (pa_h p) b (pa_q p) (pa_pubc p) (pa_subc p) (pa_wc p) (pa_rc p) (pa_tc p) (pa_pubs p) (pa_subs p)
-       (pa_topics p) (pa_cfts p) (pa_defpub p) (pa_defsub p) (pa_deftopic p) (pa_ovf p).
+       (pa_topics p) (pa_cfts p) (pa_defpub p) (pa_defsub p) (pa_deftopic p).
 Definition set_part_q (p : part) (q : pqos) : part :=
   mkPa (pa_h p) (pa_en p) q (pa_pubc p) (pa_subc p) (pa_wc p) (pa_rc p) (pa_tc p) (pa_pubs p) (pa_subs p)
-       (pa_topics p) (pa_cfts p) (pa_defpub p) (pa_defsub p) (pa_deftopic p) (pa_ovf p).
+       (pa_topics p) (pa_cfts p) (pa_defpub p) (pa_defsub p) (pa_deftopic p).
 
 Definition defgq (sd : side) (p : part) : gqos := match sd with SPub => pa_defpub p | SSub => pa_defsub p end.
 Definition group_kind (sd : side) : Z := match sd with SPub => KIND_WRITER_GROUP | SSub => KIND_READER_GROUP end.
@@ -327,12 +322,13 @@ Definition is_cft (n : Z) (c : cft) : bool := c_name c =? n.
 Definition create_group (pr : profile) (sd : side) (p : part) (q : option gqos) : part * ret :=
   let qos := match q with None => defgq sd p | Some x => x end in
   let h := child_handle (pa_h p) (gcounter sd p) 0 0 (group_kind sd) in
-  let cv := bump 255 (gcounter sd p) in
-  let p1 := set_gcounter sd p cv in
-  if panics pr cv then (p1, RPanic)
-  else
-    let g := mkGr h (pa_en p && p_auto (pa_q p)) qos (default_eqos (ekind_of sd)) [] in
-    (set_groups sd p1 (groups sd p1 ++ [g]), RHandle h).
+  match next_id 255 (gcounter sd p) with
+  | None => (p, RErr E_OUT_OF_RESOURCES)
+  | Some c' =>
+      let p1 := set_gcounter sd p c' in
+      let g := mkGr h (pa_en p && p_auto (pa_q p)) qos (default_eqos (ekind_of sd)) [] in
+      (set_groups sd p1 (groups sd p1 ++ [g]), RHandle h)
+  end.
 
 (* delete_user_defined_publisher / _subscriber  (participant_methods.rs:99, :188) *)
 Definition delete_group (sd : side) (p : part) (parent gh : handle) : part * ret :=
@@ -351,23 +347,31 @@ Definition enable_topic (p : part) (name : Z) : part * ret :=
   | Some _ => (set_topics p (upd_first (is_topic name) set_topic_en (pa_topics p)), RUnit)
   end.
 
-(* create_topic (participant_methods.rs:222); built-in names are not modelled *)
+(* create_topic (participant_methods.rs:222); built-in names are not modelled; since 3e9f0b1 a specific QoS is
+   checked with is_consistent first *)
 Definition create_topic (pr : profile) (p : part) (name : Z) (q : option eqos) : part * ret :=
   if existsb (is_topic name) (pa_topics p) then (p, RErr E_PRECONDITION)
   else
-    let qos := match q with None => pa_deftopic p | Some x => x end in
-    let h := child_handle (pa_h p) 0 (lo8 (pa_tc p)) (hi8 (pa_tc p)) KIND_TOPIC in
-    let cv := bump 65535 (pa_tc p) in
-    let p1 := set_tcounter p cv in
-    if panics pr cv then (p1, RPanic)
-    else
-      let p2 := set_topics p1 (pa_topics p1 ++ [mkTp h name false qos]) in
-      if pa_en p && p_auto (pa_q p) then
-        match enable_topic p2 name with
-        | (p3, RUnit) => (p3, RHandle h)
-        | (p3, r) => (p3, r)
+    match (match q with
+           | None => Some (pa_deftopic p)
+           | Some x => if is_consistent KTopic x then Some x else None
+           end) with
+    | None => (p, RErr E_INCONSISTENT)
+    | Some qos =>
+        let h := child_handle (pa_h p) 0 (lo8 (pa_tc p)) (hi8 (pa_tc p)) KIND_TOPIC in
+        match next_id 65535 (pa_tc p) with
+        | None => (p, RErr E_OUT_OF_RESOURCES)
+        | Some c' =>
+            let p1 := set_tcounter p c' in
+            let p2 := set_topics p1 (pa_topics p1 ++ [mkTp h name false qos]) in
+            if pa_en p && p_auto (pa_q p) then
+              match enable_topic p2 name with
+              | (p3, RUnit) => (p3, RHandle h)
+              | (p3, r) => (p3, r)
+              end
+            else (p2, RHandle h)
         end
-      else (p2, RHandle h).
+    end.
 
 Definition uses_topic (name : Z) (g : group) : bool := existsb (fun e => e_topic e =? name) (g_eps g).
 
@@ -386,11 +390,10 @@ Definition delete_topic (p : part) (parent : handle) (name : Z) : part * ret :=
    the async layer *)
 Definition create_cft (pr : profile) (p : part) (name related : Z) : part * ret :=
   if negb (existsb (is_topic related) (pa_topics p)) then (p, RErr E_PRECONDITION)
-  else
-    let cv := bump 65535 (pa_tc p) in
-    let p1 := set_tcounter p cv in
-    if panics pr cv then (p1, RPanic)
-    else (set_cfts p1 (pa_cfts p1 ++ [mkCft name related]), RUnit).
+  else match next_id 65535 (pa_tc p) with
+       | None => (p, RErr E_OUT_OF_RESOURCES)
+       | Some c' => let p1 := set_tcounter p c' in (set_cfts p1 (pa_cfts p1 ++ [mkCft name related]), RUnit)
+       end.
 (* delete_content_filtered_topic (participant_methods.rs:408): Ok(()) and nothing else *)
 Definition delete_cft (p : part) (name : Z) : part * ret := (p, RUnit).
 
@@ -411,7 +414,7 @@ Definition push_endpoint (sd : side) (p : part) (g : group) (h : handle) (name :
   (set_groups sd p (upd_first (is_group (g_h g)) (fun x => set_group_eps x (g_eps x ++ [e])) (groups sd p)),
    RHandle h).
 
-(* create_data_writer (publisher_methods.rs:29): the counter is incremented BEFORE the QoS check;
+(* create_data_writer (publisher_methods.rs:29): the counter is checked and incremented BEFORE the QoS check;
    create_data_reader (subscriber_methods.rs:34): the QoS check comes first *)
 Definition create_endpoint (pr : profile) (sd : side) (p : part) (gh : handle) (name : Z) (q : option eqos)
   : part * ret :=
@@ -427,19 +430,25 @@ Definition create_endpoint (pr : profile) (sd : side) (p : part) (gh : handle) (
                       | None => Some (g_defq g)
                       | Some x => if is_consistent (ekind_of sd) x then Some x else None
                       end in
-          let cv := bump 65535 c in
-          let p1 := set_ecounter sd p cv in
           match sd with
           | SPub =>
-              if panics pr cv then (p1, RPanic)
-              else match qchk with
-                   | None => (p1, RErr E_INCONSISTENT)
-                   | Some qos => push_endpoint sd p1 g h name qos
-                   end
+              match next_id 65535 c with
+              | None => (p, RErr E_OUT_OF_RESOURCES)
+              | Some c' =>
+                  let p1 := set_ecounter sd p c' in
+                  match qchk with
+                  | None => (p1, RErr E_INCONSISTENT)
+                  | Some qos => push_endpoint sd p1 g h name qos
+                  end
+              end
           | SSub =>
               match qchk with
               | None => (p, RErr E_INCONSISTENT)
-              | Some qos => if panics pr cv then (p1, RPanic) else push_endpoint sd p1 g h name qos
+              | Some qos =>
+                  match next_id 65535 c with
+                  | None => (p, RErr E_OUT_OF_RESOURCES)
+                  | Some c' => push_endpoint sd (set_ecounter sd p c') g h name qos
+                  end
               end
           end
       end
@@ -472,18 +481,14 @@ Definition get_group_qos (sd : side) (p : part) (gh : handle) : part * ret :=
   | None => (p, RErr E_DELETED)
   | Some g => (p, RGQ (g_q g))
   end.
-(* set_publisher_qos (publisher_methods.rs:197): no immutability check;
-   set_subscriber_qos (subscriber_methods.rs:296): presentation is immutable once enabled *)
+(* set_publisher_qos (publisher_methods.rs:197, since 5256dfd) / set_subscriber_qos (subscriber_methods.rs:296):
+   presentation is immutable once enabled *)
 Definition set_group_qos (sd : side) (p : part) (gh : handle) (q : option gqos) : part * ret :=
   let qos := match q with None => defgq sd p | Some x => x end in
   match find_first (is_group gh) (groups sd p) with
   | None => (p, RErr E_DELETED)
   | Some g =>
-      let reject := match sd with
-                    | SPub => false
-                    | SSub => g_en g && negb (presentation_eqb (g_q g) qos)
-                    end in
-      if reject then (p, RErr E_IMMUTABLE)
+      if g_en g && negb (presentation_eqb (g_q g) qos) then (p, RErr E_IMMUTABLE)
       else (set_groups sd p (upd_first (is_group gh) (fun x => set_group_q x qos) (groups sd p)), RUnit)
   end.
 
@@ -594,7 +599,7 @@ Definition with_part (f : factory) (ph : handle) (k : part -> part * ret) : fact
   end.
 
 Definition new_part (h : handle) (q : pqos) : part :=
-  mkPa h false q 0 0 0 0 0 [] [] [] [] default_gqos default_gqos (default_eqos KTopic) false.
+  mkPa h false q 0 0 0 0 0 [] [] [] [] default_gqos default_gqos (default_eqos KTopic).
 
 (* DomainParticipantFactoryAsync::create_participant + DcpsParticipantFactory::create_participant *)
 Definition create_part (f : factory) (q : option pqos) : factory * ret :=
@@ -611,7 +616,7 @@ Definition delete_part (f : factory) (ph : handle) : factory * ret :=
   | None => (f, RErr E_DELETED)
   | Some p =>
       if negb (part_is_empty p) then (f, RErr E_PRECONDITION)
-      else (mkF (rem_first (is_part ph) (f_parts f)) (f_auto f) (f_defp f) (f_next f) (f_ovf f || pa_ovf p), RUnit)
+      else (mkF (rem_first (is_part ph) (f_parts f)) (f_auto f) (f_defp f) (f_next f) (f_ovf f), RUnit)
   end.
 
 Definition fstep (pr : profile) (f : factory) (o : fop) : factory * ret :=
@@ -660,7 +665,8 @@ Definition part_handles (p : part) : list handle :=
 Definition all_handles (f : factory) : list handle := flat_map part_handles (f_parts f).
 Definition part_guids (p : part) : list handle :=
   flat_map (fun g => map e_guid (g_eps g)) (pa_pubs p) ++ flat_map (fun g => map e_guid (g_eps g)) (pa_subs p).
-Definition any_ovf (f : factory) : bool := f_ovf f || existsb pa_ovf (f_parts f).
+(* the participant instance number wrapped around: more than 2^32 - 1 participants were created *)
+Definition any_ovf (f : factory) : bool := f_ovf f.
 
 (* ------------------------------------------------------------------ the application side (dds_async proxies)
    A proxy object only stores handles (and, for topics, the NAME); the scenario names proxies by their index in
